@@ -297,7 +297,7 @@ func c19InAny(a netip.Addr, nets []string) bool {
 
 func TestVerif_C19(t *testing.T) {
 	r := verifkit.Start(t, "C19", "handler")
-	r.Rule("PRNG exit-handler configurations (0-4 networks in/around 127/8 in several spellings, 0-3 domain patterns, sometimes nothing) x histories of add/remove of dynamic networks x crafted destinations " +
+	r.Rule("PRNG exit-handler configurations (0-4 networks: in/around 127/8 in several spellings, default routes 0.0.0.0/0 and ::/0, /1../8 prefixes of either family, IPv6-only and IPv4-only exits probed with destinations of the other family; 0-3 domain patterns, sometimes nothing) x histories of add/remove of dynamic networks x crafted destinations " +
 		"(both sides of every network edge, IPv4-mapped spellings, IPv6, names served by a loopback DNS responder incl. case/trailing-dot/multi-level variants, address look-alikes); " +
 		"non-trivial = history with >=1 probe that connected and >=1 that was refused; distinct by (config, steps)")
 	r.Assume("ground truth for 'connected' = accept on loopback listeners 0.0.0.0:p / [::1]:p; destinations outside 127.0.0.0/8 and ::1 cannot be observed in the sandbox and are not generated as connectable targets")
